@@ -8,6 +8,7 @@ CONSTANTS
   MaxRestart = 0
   MaxScrape = 1
   MaxCollect = 0
+  MaxTick = 0
   FileSel = {1, 2, 3}
   FlowSel = {1, 4}
 INVARIANTS Accept
